@@ -828,9 +828,62 @@ type teardownFacts struct {
 	drainerStops bool
 }
 
-func (c *Ctx) teardownFacts(ls *Locksets) *teardownFacts {
+// waitFrame: the function in which the teardown waits for the connection
+// goroutines: the teardown core itself, or the one unexported function it
+// calls (plainly, from nowhere else) that contains the Wait.
+func (c *Ctx) waitFrame() *ssa.Function {
 	a := c.A
 	td := a.TeardownCore
+	has := func(fn *ssa.Function) bool {
+		found := false
+		funcInstrs(fn, func(in ssa.Instruction) {
+			if c.isWGCall(in, a.WG, "Wait") {
+				found = true
+			}
+		})
+		return found
+	}
+	if td == nil || has(td) {
+		return td
+	}
+	for _, cs := range CallSites(td) {
+		call, ok := cs.(*ssa.Call)
+		if !ok || call.Call.IsInvoke() {
+			continue
+		}
+		h := call.Call.StaticCallee()
+		if h == nil || !c.InModuleFn(h) || h.Package() != c.Client || (h.Object() != nil && h.Object().Exported()) || addrTaken(h) || len(c.staticCallers(h)) != 1 {
+			continue
+		}
+		if has(h) {
+			return h
+		}
+	}
+	return td
+}
+
+// doesWait: in waits for the connection goroutines: the Wait itself, or the
+// plain call of the wait frame (which waits on every path).
+func (c *Ctx) doesWait(in ssa.Instruction) bool {
+	a := c.A
+	if c.isWGCall(in, a.WG, "Wait") && kindName(in) == "call" {
+		return true
+	}
+	wf := c.waitFrame()
+	if wf == nil || wf == a.TeardownCore {
+		return false
+	}
+	call, ok := in.(*ssa.Call)
+	if !ok || call.Call.IsInvoke() || call.Call.StaticCallee() != wf {
+		return false
+	}
+	all, _ := AllPathsFromEntryPass(wf, func(x ssa.Instruction) bool { return c.isWGCall(x, a.WG, "Wait") && kindName(x) == "call" })
+	return all
+}
+
+func (c *Ctx) teardownFacts(ls *Locksets) *teardownFacts {
+	a := c.A
+	td := c.waitFrame()
 	tf := &teardownFacts{drains: map[*types.Var]bool{}}
 	funcInstrs(td, func(in ssa.Instruction) {
 		if c.isWGCall(in, a.WG, "Wait") {
@@ -921,7 +974,7 @@ func (c *Ctx) teardownFacts(ls *Locksets) *teardownFacts {
 // channel, which the teardown signals only after Wait and on every path.
 func (c *Ctx) drainerAt(tf *teardownFacts, g *ssa.Go, start ssa.Instruction) {
 	a := c.A
-	td := a.TeardownCore
+	td := c.waitFrame()
 	callee := g.Call.StaticCallee()
 	if callee == nil || callee.Blocks == nil {
 		return
